@@ -494,11 +494,11 @@ theorem stepReqs_mem (cfg : RCfg) (htick : cfg.tick = 0) (w : Worker) (ex : Exis
 
 /-- the entries whose requests carry the entry's key -/
 def EntryKeyed (e : Entry) : Prop :=
-  EntryOk e ∧ (e.obj.rtype = 0xFA ∨ e.obj.rtype = 0xF5 ∨ e.obj.key = e.key)
+  (EntryOk e ∧ otypeOf e.obj.rtype ≠ some .stream) ∧ (e.obj.rtype = 0xFA ∨ e.obj.rtype = 0xF5 ∨ e.obj.key = e.key)
 
 theorem step_tagOk (cfg : RCfg) (htick : cfg.tick = 0) (hrht : cfg.replaceHashTag = false)
     (n idx : Nat) (w : Worker) (ex : Exists) (e : Entry) (hk : EntryKeyed e) :
-    ∀ c ∈ stepReqs cfg w ex e, TagOk n (workerOf n e idx, c) := by
+    ∀ c ∈ stepReqs cfg w ex e, TagOk n (workerOf cfg n e idx, c) := by
   intro c hc
   rcases stepReqs_mem cfg htick w ex e c hc with rfl | ⟨D, hD⟩
   · refine ⟨GoodReq.sel (show lower b!"select" = b!"select" by decide), fun k hk' => ?_⟩
@@ -522,7 +522,7 @@ theorem step_tagOk (cfg : RCfg) (htick : cfg.tick = 0) (hrht : cfg.replaceHashTa
       have hkk := hr.2 k hk'
       subst hkk
       have hnf : otypeOf e.obj.rtype ≠ some .function := fun h => hf (otypeOf_function _ h)
-      simp only [workerOf, hnf, ne_eq, not_false_eq_true, or_true, if_true]
+      simp only [workerOf, hnf, ne_eq, not_false_eq_true, or_true, if_true, dstKey, hrht, Bool.false_eq_true, if_false]
 
 theorem sched_tagOk (cfg : RCfg) (htick : cfg.tick = 0) (hrht : cfg.replaceHashTag = false) :
     ∀ (es : List Entry), (∀ e ∈ es, EntryKeyed e) → ∀ (idx : Nat) (ws : List Worker) (ex : Exists),
@@ -550,21 +550,27 @@ theorem trace_keyed {db : Nat} {items : List Item} {es : List Entry} (htr : Trac
   | @aux db k v items es e hdb hrt _ ih =>
     intro x hx
     rcases List.mem_cons.mp hx with rfl | hx'
-    · exact ⟨hok _ hx, Or.inl hrt⟩
+    · exact ⟨⟨hok _ hx, by rw [hrt]; decide⟩, Or.inl hrt⟩
     · exact ih (fun x hx => hcar x (List.mem_cons_of_mem _ hx)) (fun y hy => hok y (List.mem_cons_of_mem _ hy)) x hx'
   | @function db code items es e hdb hrt _ ih =>
     intro x hx
     rcases List.mem_cons.mp hx with rfl | hx'
-    · exact ⟨hok _ hx, Or.inr (Or.inl hrt)⟩
+    · exact ⟨⟨hok _ hx, by rw [hrt]; decide⟩, Or.inr (Or.inl hrt)⟩
     · exact ih (fun x hx => hcar x (List.mem_cons_of_mem _ hx)) (fun y hy => hok y (List.mem_cons_of_mem _ hy)) x hx'
   | @key db k items ces es hke _ ih =>
     intro x hx
     rcases List.mem_append.mp hx with hx' | hx'
-    · refine ⟨hok x hx, Or.inr (Or.inr ?_)⟩
+    · obtain ⟨hkind, _, _⟩ := hcar (.key k) (List.mem_cons_self ..)
       rcases hke with ⟨e, rfl, he, hobj⟩ | ⟨f, its, e0, tl, _, hces, hc, _⟩
       · simp only [List.mem_singleton] at hx'; subst hx'
-        rw [hobj, he.1]; rfl
+        refine ⟨⟨hok _ hx, ?_⟩, Or.inr (Or.inr ?_)⟩
+        · rw [hobj]
+          show otypeOf k.obj.rtype ≠ _
+          rw [otypeOf_rtype k.obj hkind]
+          intro h; exact otOf_ne_stream k.obj (Option.some.inj h)
+        · rw [hobj, he.1]; rfl
       · have := hc x hx'
+        refine ⟨⟨hok x hx, by rw [this.2.2.1]; decide⟩, Or.inr (Or.inr ?_)⟩
         rw [this.2.1, this.1.1]
     · exact ih (fun x hx => hcar x (List.mem_cons_of_mem _ hx)) (fun y hy => hok y (List.mem_append_right _ hy)) x hx'
 
